@@ -21,67 +21,69 @@ theorem toPatternChars_cons (a : AttrChar) (t : List AttrChar) :
   unfold toPatternChars
   cases h1 : a.isQuoting <;> cases h2 : a.isQuoted <;> simp [h1, h2]
 
+theorem attrMarks_nil_iff (t : List AttrChar) : attrMarks t = [] ↔ t.any (fun c => !c.isQuoting) = false := by
+  induction t with
+  | nil => simp [attrMarks]
+  | cons a r ih =>
+    rw [attrMarks_cons, List.any_cons]
+    cases h : a.isQuoting <;> simp [h, ih]
+
 /-- the statement with the `quoteThis` flag of the loop -/
 theorem toPatternChars_aux (cs : List AttrChar) : ∀ (qt : Bool),
-    noEscapedMark cs = true → (qt = true → ∀ a ∈ cs.head?, a.isQuoting = false) →
     toPatternChars (applyEscapesAux qt cs) =
       if qt then (match attrMarks cs with
         | [] => []
         | m :: t => .literal m.1 :: escapeMarked t)
       else escapeMarked (attrMarks cs) := by
   induction cs with
-  | nil => intro qt _ _; cases qt <;> simp [applyEscapesAux, toPatternChars, attrMarks, escapeMarked]
+  | nil => intro qt; cases qt <;> simp [applyEscapesAux, toPatternChars, attrMarks, escapeMarked]
   | cons a t ih =>
-    intro qt hn hq
-    have hnt : noEscapedMark t = true := by
-      cases t with
-      | nil => simp [noEscapedMark]
-      | cons b t' => simp [noEscapedMark] at hn; exact hn.2
-    have ihf := ih false hnt (by intro h; cases h)
+    intro qt
+    have ihf := ih false
     simp only [Bool.false_eq_true, if_false] at ihf
-    cases qt with
-    | true =>
-      have haq : a.isQuoting = false := hq rfl a (by simp)
-      rw [applyEscapesAux]
-      simp [haq, toPatternChars_cons, attrMarks_cons, ihf]
-    | false =>
-      rw [applyEscapesAux]
-      simp only [Bool.false_eq_true, if_false]
-      by_cases haq : a.isQuoting = true
-      · -- a quotation mark: dropped, the loop goes on unflagged
-        simp [haq, toPatternChars_cons, attrMarks_cons, ihf]
-      · have haq : a.isQuoting = false := by cases h : a.isQuoting <;> simp_all
-        by_cases hesc : a.value = '\\' ∧ a.isQuoting = false ∧ a.isQuoted = false ∧ t ≠ []
-        · obtain ⟨hv, -, hqd, hne⟩ := hesc
-          obtain ⟨b, t', rfl⟩ := List.exists_cons_of_ne_nil hne
-          have hb : b.isQuoting = false := by
-            simp [noEscapedMark, hv, haq, hqd] at hn
-            exact hn.1
-          have iht := ih true hnt (by intro _ x hx; simp at hx; subst hx; exact hb)
+    rw [applyEscapesAux]
+    by_cases haq : a.isQuoting = true
+    · simp only [haq, if_true, toPatternChars_cons, attrMarks_cons]
+      exact ih qt
+    · have haq : a.isQuoting = false := by cases h : a.isQuoting <;> simp_all
+      simp only [haq, Bool.false_eq_true, if_false]
+      cases qt with
+      | true =>
+        simp [toPatternChars_cons, attrMarks_cons, haq, ihf]
+      | false =>
+        simp only [Bool.false_eq_true, if_false]
+        by_cases hesc : a.value = '\\' ∧ a.isQuoted = false ∧ t.any (fun c => !c.isQuoting) = true
+        · obtain ⟨hv, hqd, hany⟩ := hesc
+          have iht := ih true
           simp only [if_true] at iht
-          simp [haq, hv, hqd, toPatternChars_cons, attrMarks_cons, hb, escapeMarked, iht]
+          have hne : attrMarks t ≠ [] := by
+            intro h; rw [(attrMarks_nil_iff t).1 h] at hany; cases hany
+          rw [if_pos ⟨hv, hqd, hany⟩]
+          simp only [toPatternChars_cons, if_true, iht, attrMarks_cons, haq, Bool.false_eq_true, if_false]
+          cases hm : attrMarks t with
+          | nil => exact absurd hm hne
+          | cons m r => simp [escapeMarked, hv, hqd]
         · rw [if_neg hesc]
           simp only [toPatternChars_cons, haq, attrMarks_cons, Bool.false_eq_true, if_false, ihf]
           cases hm : attrMarks t with
           | nil => simp [escapeMarked, markChar]
           | cons d r =>
+            have hany : t.any (fun c => !c.isQuoting) = true := by
+              cases h : t.any (fun c => !c.isQuoting) with
+              | true => rfl
+              | false => rw [(attrMarks_nil_iff t).2 h] at hm; cases hm
             by_cases hv : a.value = '\\'
             · by_cases hq2 : a.isQuoted = true
               · simp [escapeMarked, markChar, hq2]
               · have hq2 : a.isQuoted = false := by cases h : a.isQuoted <;> simp_all
-                have : t = [] := by
-                  cases t with
-                  | nil => rfl
-                  | cons x y => exact absurd ⟨hv, haq, hq2, by simp⟩ hesc
-                subst this
-                simp [attrMarks] at hm
+                exact absurd ⟨hv, hq2, hany⟩ hesc
             · simp [escapeMarked, markChar, hv]
 
-/-- ★ for EVERY sequence of attributed characters in which no unquoted backslash stands directly before a quoting
-    character: `to_pattern_chars` after `apply_escapes` = quote removal, then XCU 2.13.1 -/
-theorem toPatternChars_applyEscapes (cs : List AttrChar) (h : noEscapedMark cs = true) :
+/-- ★ for EVERY sequence of attributed characters: `to_pattern_chars` after `apply_escapes` = quote removal, then
+    XCU 2.13.1 (no exception since fix 9da0f0e) -/
+theorem toPatternChars_applyEscapes (cs : List AttrChar) :
     toPatternChars (applyEscapes cs) = escapeMarked (attrMarks cs) := by
-  have := toPatternChars_aux cs false h (by intro h; cases h)
+  have := toPatternChars_aux cs false
   simpa [applyEscapes] using this
 
 /-! ## the word: quote removal on what `expand` yields = the Spec's marked characters -/
@@ -273,62 +275,72 @@ theorem markChar_quoted (ms : List (Char × Bool)) (h : ∀ m ∈ ms, m.2 = true
 
 /-! ## the index loop of `apply_escapes` = the recursion -/
 
-theorem applyEscapesAux_true (b : AttrChar) (t : List AttrChar) :
-    applyEscapesAux true (b :: t) = applyEscapesAux false ({ b with isQuoted := true } :: t) := by
-  simp [applyEscapesAux]
-
-theorem escLoop (t : List AttrChar) : ∀ (pre : List AttrChar) (a : AttrChar),
-    (List.range' (pre.length + 1) t.length).foldl escStep (pre ++ a :: t) = pre ++ applyEscapesAux false (a :: t) := by
+theorem markFirst_length (t : List AttrChar) : (markFirst t).length = t.length := by
   induction t with
-  | nil => intro pre a; simp [applyEscapesAux]
-  | cons b t' ih =>
-    intro pre a
-    have hr : List.range' (pre.length + 1) (b :: t').length =
-        (pre.length + 1) :: List.range' (pre.length + 1 + 1) t'.length := by
+  | nil => rfl
+  | cons c r ih => unfold markFirst; split <;> simp [ih]
+
+theorem applyEscapesAux_true (t : List AttrChar) :
+    applyEscapesAux true t = applyEscapesAux false (markFirst t) := by
+  induction t with
+  | nil => rfl
+  | cons c r ih =>
+    by_cases hq : c.isQuoting = true
+    · simp [applyEscapesAux, markFirst, hq, ih]
+    · have hq : c.isQuoting = false := by cases h : c.isQuoting <;> simp_all
+      simp [applyEscapesAux, markFirst, hq]
+
+theorem escLoop : ∀ (n : Nat) (t : List AttrChar), t.length = n → ∀ (pre : List AttrChar),
+    (List.range' pre.length t.length).foldl escStep (pre ++ t) = pre ++ applyEscapesAux false t := by
+  intro n
+  induction n with
+  | zero =>
+    intro t ht pre
+    have : t = [] := List.eq_nil_of_length_eq_zero ht
+    subst this; simp [applyEscapesAux]
+  | succ n ih =>
+    intro t ht pre
+    cases t with
+    | nil => simp at ht
+    | cons a t' =>
+    have hlen : t'.length = n := by simpa using ht
+    have hr : List.range' pre.length (a :: t').length = pre.length :: List.range' (pre.length + 1) t'.length := by
       simp [List.range'_succ]
     rw [hr, List.foldl_cons]
-    have ha : (pre ++ a :: b :: t')[pre.length + 1 - 1]? = some a := by simp
-    have hb : (pre ++ a :: b :: t')[pre.length + 1]? = some b := by
-      rw [List.getElem?_append_right (by omega)]; simp
-    by_cases hc : a.value = '\\' ∧ a.isQuoting = false ∧ a.isQuoted = false
-    · have hs : escStep (pre ++ a :: b :: t') (pre.length + 1) =
-          (pre ++ [{ a with isQuoting := true }]) ++ { b with isQuoted := true } :: t' := by
+    have ha : (pre ++ a :: t')[pre.length]? = some a := by simp
+    have hd : (pre ++ a :: t').drop (pre.length + 1) = t' := by simp
+    have htk : (pre ++ a :: t').take pre.length = pre := by simp
+    by_cases hc : a.value = '\\' ∧ a.isQuoting = false ∧ a.isQuoted = false ∧ t'.any (fun c => !c.isQuoting) = true
+    · have hs : escStep (pre ++ a :: t') pre.length = (pre ++ [{ a with isQuoting := true }]) ++ markFirst t' := by
         unfold escStep
-        rw [ha, hb]
-        simp only [if_pos hc]
-        simp
-      have := ih (pre ++ [{ a with isQuoting := true }]) { b with isQuoted := true }
-      simp only [List.length_append, List.length_cons, List.length_nil] at this
-      rw [hs, this]
-      have hc' : a.value = '\\' ∧ a.isQuoting = false ∧ a.isQuoted = false ∧ b :: t' ≠ [] :=
-        ⟨hc.1, hc.2.1, hc.2.2, by simp⟩
-      have e : applyEscapesAux false (a :: b :: t') =
-          { a with isQuoting := true } :: applyEscapesAux true (b :: t') := by
-        rw [applyEscapesAux]; simp only [Bool.false_eq_true, if_false, if_pos hc']
-      rw [e, applyEscapesAux_true]
-      simp
-    · have hs : escStep (pre ++ a :: b :: t') (pre.length + 1) = (pre ++ [a]) ++ b :: t' := by
+        rw [ha]; simp only [hd, htk, if_pos hc]; simp
+      have h2 := ih (markFirst t') (by rw [markFirst_length, hlen]) (pre ++ [{ a with isQuoting := true }])
+      simp only [List.length_append, List.length_cons, List.length_nil, markFirst_length] at h2
+      rw [hs, h2, ← applyEscapesAux_true]
+      have e : applyEscapesAux false (a :: t') = { a with isQuoting := true } :: applyEscapesAux true t' := by
+        rw [applyEscapesAux]
+        simp only [hc.2.1, Bool.false_eq_true, if_false]
+        rw [if_pos ⟨hc.1, hc.2.2.1, hc.2.2.2⟩]
+      rw [e]; simp
+    · have hs : escStep (pre ++ a :: t') pre.length = (pre ++ [a]) ++ t' := by
         unfold escStep
-        rw [ha, hb]
-        simp only [if_neg hc]
-        simp
-      have := ih (pre ++ [a]) b
-      simp only [List.length_append, List.length_cons, List.length_nil] at this
-      rw [hs, this]
-      have hc' : ¬ (a.value = '\\' ∧ a.isQuoting = false ∧ a.isQuoted = false ∧ b :: t' ≠ []) := by
-        intro h; exact hc ⟨h.1, h.2.1, h.2.2.1⟩
-      have e : applyEscapesAux false (a :: b :: t') = a :: applyEscapesAux false (b :: t') := by
-        rw [applyEscapesAux]; simp only [Bool.false_eq_true, if_false, if_neg hc']
-      rw [e]
-      simp
+        rw [ha]; simp only [hd, htk, if_neg hc]; simp
+      have h2 := ih t' hlen (pre ++ [a])
+      simp only [List.length_append, List.length_cons, List.length_nil] at h2
+      rw [hs, h2]
+      have e : applyEscapesAux false (a :: t') = a :: applyEscapesAux false t' := by
+        rw [applyEscapesAux]
+        by_cases hq : a.isQuoting = true
+        · simp [hq]
+        · have hq : a.isQuoting = false := by cases h : a.isQuoting <;> simp_all
+          simp only [hq, Bool.false_eq_true, if_false]
+          rw [if_neg (fun h => hc ⟨h.1, hq, h.2.1, h.2.2⟩)]
+      rw [e]; simp
 
 /-- the index loop of the Rust code = the recursion of the model -/
 theorem applyEscapesIdx_eq (cs : List AttrChar) : applyEscapesIdx cs = applyEscapes cs := by
-  cases cs with
-  | nil => simp [applyEscapesIdx, applyEscapes, applyEscapesAux]
-  | cons a t =>
-    have := escLoop t [] a
-    simpa [applyEscapesIdx, applyEscapes] using this
+  have := escLoop cs.length cs rfl []
+  simpa [applyEscapesIdx, applyEscapes] using this
 
 /-! ## `escapeMarked` on a quoted prefix and on a wholly unquoted text -/
 
